@@ -128,6 +128,10 @@ def run(chk):
         bad += c03.compare(chk, core, cases, "derivs")
         # the extracted published model is super-linear in the grain count (16000 grains: 13 s; 100000: > 1 h)
         spec_cases = [c for c in cases if c["ng"] <= 20000]
+        if chk.tier == "quick":   # block-boundary sizes: the published model up to 5000 grains, and once at 2^14
+            big = [c for c in spec_cases if c["ng"] > 5000]
+            keep = [c for c in big if c["ng"] == 16384][:1]
+            spec_cases = [c for c in spec_cases if c["ng"] <= 5000] + keep
         chk.cov["spec_model_max_grains"] = max(c["ng"] for c in spec_cases)
         bad += [(c, "published model: " + m) for c, m in c03.compare(chk, core, spec_cases, "spec_derivs")]
         small = [c for c in cases if c["ng"] <= 3]
@@ -157,7 +161,7 @@ def run(chk):
         return
     found = []
     seen = set()
-    pool = [c for c, _ in bad] + [c for c in c03.gen_cases(chk, "quick") if c["ng"] <= 64]
+    pool = [c for c, _ in bad] + [c for c in c03.gen_cases(chk, "quick") if c["ng"] <= 64] + c03.search_block_pool(chk, cap=1100)
     for c in pool:
         fails = oracle(core, c)
         if fails:
